@@ -241,6 +241,11 @@ func (u *Unit) exec(fr *Frame, st *State, instr ssa.Instruction) {
 		}
 		fr.regs[in] = cv
 	case *ssa.MakeInterface:
+		if pe := ptrElem(in.X.Type()); pe != nil {
+			if p, ok := u.val(fr, st, in.X).(*Term); ok && p.Sort == SPtr {
+				st.boxed = append(st.boxed, &localObj{p, pe})
+			}
+		}
 		u.escape(st, u.val(fr, st, in.X))
 		fr.regs[in] = u.makeIface(st, u.val(fr, st, in.X), in.X.Type())
 	case *ssa.TypeAssert:
@@ -358,19 +363,35 @@ func (u *Unit) zeroArray(st *State, elemT types.Type, r *Term) {
 			sort, _ := u.sortOf(f.Type())
 			name := fieldMapName(elemT, f.Name())
 			m := u.heapGet(st, name, sort)
-			u.heapSet(st, name, Store(m, r, constArray(sort, u.zeroOfSort(sort))))
+			u.heapSet(st, name, Store(m, r, u.constArray(sort, u.zeroOfSort(sort))))
 		}
 		return
 	}
 	sort, _ := u.sortOf(elemT)
 	name := elemMapName(sort)
 	m := u.heapGet(st, name, sort)
-	u.heapSet(st, name, Store(m, r, constArray(sort, u.zeroOfSort(sort))))
+	u.heapSet(st, name, Store(m, r, u.constArray(sort, u.zeroOfSort(sort))))
 }
 
-func constArray(elem Sort, v *Term) *Term {
+// constArray: the array that is v everywhere. Only literal values may be used
+// with (as const ...) portably (cvc5 rejects uninterpreted constants there);
+// other zero values get a named array with a defining quantified axiom.
+func (u *Unit) constArray(elem Sort, v *Term) *Term {
 	as := ArrSort(SInt, elem)
-	return &Term{fmt.Sprintf("((as const %s) %s)", as, v.S), as}
+	switch elem {
+	case SInt, SReal, SBool:
+		return &Term{fmt.Sprintf("((as const %s) %s)", as, v.S), as}
+	}
+	if elem.IsBV() {
+		return &Term{fmt.Sprintf("((as const %s) %s)", as, v.S), as}
+	}
+	name := "zeroarr!" + sanitize(string(elem))
+	z := u.ctx.Const(name, as)
+	if !u.ctx.declared[name+"!ax"] {
+		u.ctx.declared[name+"!ax"] = true
+		u.ctx.Axiom(&Term{fmt.Sprintf("(forall ((i Int)) (! (= (select %s i) %s) :pattern ((select %s i))))", z.S, v.S, z.S), SBool})
+	}
+	return z
 }
 
 func (u *Unit) unop(fr *Frame, st *State, in *ssa.UnOp) Val {
